@@ -32,17 +32,31 @@ _MUTATORS_DICT = ("__setitem__", "__delitem__", "pop", "popitem", "clear", "upda
 
 
 class Monitor:
-    """records effective writes to pre-existing shared objects"""
+    """records effective writes to pre-existing shared objects; in replay mode also logs the
+    shared-location events of each thread and enforces a schedule"""
 
     def __init__(self):
         self.shared = set()
         self.keep = []
         self.effective = []
         self.active = False
+        self.label = {}
+        self.events = None  # per-thread event logs when recording: {thread_name: [(kind, loc)]}
+        self.gate = None  # callable(thread_name, event_index) used to force a schedule
 
     def add(self, obj):
         self.shared.add(id(obj))
+        self.label[id(obj)] = len(self.keep)
         self.keep.append(obj)
+
+    def log(self, kind, obj, name):
+        if self.events is None or not self.active or id(obj) not in self.shared:
+            return
+        t = threading.current_thread().name
+        ev = self.events.setdefault(t, [])
+        ev.append((kind, (self.label[id(obj)], name)))
+        if self.gate is not None:
+            self.gate(t, len(ev) - 1)
 
     def on_setattr(self, obj, name, value):
         if not self.active or id(obj) not in self.shared:
@@ -53,11 +67,12 @@ class Monitor:
         except AttributeError:
             old, missing = None, True
         if missing or not (old is value or _same(old, value)):
-            self.effective.append(("setattr", type(obj).__name__, name))
+            self.effective.append(("setattr", type(obj).__name__, name, self.label.get(id(obj))))
 
     def on_mutation(self, obj, method):
         if self.active and id(obj) in self.shared:
-            self.effective.append(("mutate", type(obj).__name__, method))
+            self.effective.append(("mutate", type(obj).__name__, method, self.label.get(id(obj))))
+            self.log("W", obj, "<contents>")
 
 
 def _same(a, b):
@@ -113,10 +128,12 @@ def install_monitor():
     def elem_setattr(self, name, value):
         MON.on_setattr(self, name, value)
         object.__setattr__(self, name, value)
+        MON.log("W", self, name)  # after the store: a thread parked here has published the value
 
     def meta_setattr(cls, name, value):
         MON.on_setattr(cls, name, value)
         type.__setattr__(cls, name, value)
+        MON.log("W", cls, name)
 
     Element.__setattr__ = elem_setattr
     _Property.__setattr__ = elem_setattr
@@ -187,9 +204,12 @@ def share_tree(el, _seen=None):
     return el
 
 
-def no_interference(make, v):
-    """step 1: no effective write to a pre-existing object during el(v)"""
-    from vf.common import verdict, jcopy
+def no_interference(make, v, probes=()):
+    """step 1: no effective write to a pre-existing object during el(v).
+    In replay (plain interpreter) an effective shared write is followed by step 2: only a schedule that
+    makes a thread's outcome differ from its solo run (or changes the tree) is a violation; otherwise
+    the write is reported as benign-within-bounds (Inconclusive)."""
+    from vf.common import verdict, jcopy, _tracing, Inconclusive
     from statham.schema.validation.format import format_checker
 
     install_monitor()
@@ -207,7 +227,17 @@ def no_interference(make, v):
         MON.active = False
     if dict(format_checker._callable_register) != reg_before:
         return False
-    return len(MON.effective) == 0
+    if len(MON.effective) == 0:
+        return True
+    if _tracing():
+        return False
+    writes = sorted(set((e[1], e[2]) for e in MON.effective))
+    why = harmful_schedule(make, [v] + list(probes))
+    if why is not None:
+        print("C14 step 2:", why)
+        return False
+    raise Inconclusive("effective shared write(s) %s during el(v), but no schedule among %d solver-chosen one-preemption schedules over %d values changed any thread's outcome or the tree" % (
+        writes, getattr(harmful_schedule, "tried", 0), 1 + len(probes)))
 
 
 def monitor_sees(make):
@@ -237,7 +267,191 @@ def monitor_sees(make):
     return seen[0] > 0
 
 
-# ------------------------------------------------------------------ step 2: threads (replay side)
+# ------------------------------------------------------------------ step 2: schedule query + forced replay
+def install_read_hooks(names):
+    """log reads of the given attribute names on shared objects (replay mode only)"""
+    from vf.common import Element, _Property, ObjectMeta
+
+    if getattr(install_read_hooks, "done", None) == tuple(sorted(names)):
+        return
+    install_read_hooks.done = tuple(sorted(names))
+    wanted = set(names)
+
+    def inst_get(self, name):
+        val = object.__getattribute__(self, name)
+        if name in wanted:
+            MON.log("R", self, name)
+        return val
+
+    def meta_get(cls, name):
+        val = type.__getattribute__(cls, name)
+        if name in wanted:
+            MON.log("R", cls, name)
+        return val
+
+    Element.__getattribute__ = inst_get
+    _Property.__getattribute__ = inst_get
+    ObjectMeta.__getattribute__ = meta_get
+
+
+def record(make, v, thread_name):
+    """solo run of el(v) on a fresh shared tree: (verdict, event list, effective writes)"""
+    from vf.common import verdict, jcopy
+
+    MON.shared.clear()
+    MON.keep.clear()
+    MON.label.clear()
+    MON.effective.clear()
+    el = share_tree(make())
+    MON.events = {}
+    MON.gate = None
+    MON.active = True
+    old = threading.current_thread().name
+    threading.current_thread().name = thread_name
+    try:
+        out = verdict(el, jcopy(v))
+    finally:
+        threading.current_thread().name = old
+        MON.active = False
+    ev = MON.events.get(thread_name, [])
+    MON.events = None
+    return out, ev, list(MON.effective)
+
+
+def preemption_points(ev_a, ev_b, limit=40):
+    """E3 query: timestamps for the events of A and B (program order, B contiguous = one preemption of A);
+    find every index p of A such that B, run right after A's p-th event, READS a location that A has
+    WRITTEN at or before p while A still has work to do.  z3 enumerates the feasible p."""
+    import z3
+
+    na, nb = len(ev_a), len(ev_b)
+    if na == 0:
+        return []
+    pa = [z3.Int("a%d" % i) for i in range(na)]
+    pb = [z3.Int("b%d" % j) for j in range(nb)]
+    p = z3.Int("p")
+    s = z3.Solver()
+    s.set("timeout", 20000)
+    for i in range(na):
+        s.add(pa[i] >= 0, pa[i] < na + nb)
+        if i:
+            s.add(pa[i] > pa[i - 1])
+    for j in range(nb):
+        s.add(pb[j] >= 0, pb[j] < na + nb)
+        if j:
+            s.add(pb[j] == pb[j - 1] + 1)
+    s.add(z3.Distinct(*(pa + pb)) if na + nb > 1 else z3.BoolVal(True))
+    s.add(p >= 0, p < na)
+    # B's block sits right after A's p-th event
+    for i in range(na):
+        if nb:
+            s.add(z3.Implies(p == i, z3.And(pa[i] < pb[0], *( [pb[-1] < pa[i + 1]] if i + 1 < na else []))))
+    harm = []
+    for i, (ka, la) in enumerate(ev_a):
+        if ka != "W":
+            continue
+        for j, (kb, lb) in enumerate(ev_b):
+            if lb == la:  # B touches what A wrote
+                harm.append(z3.And(pa[i] < pb[j], p >= i))
+        if not nb:
+            harm.append(p == i)
+    if not harm:
+        return []
+    s.add(z3.Or(*harm))
+    out = []
+    while len(out) < limit and str(s.check()) == "sat":
+        val = s.model().eval(p, model_completion=True).as_long()
+        out.append(val)
+        s.add(p != val)
+    return sorted(out)
+
+
+def forced_run(make, va, vb, p):
+    """thread A validates va and is parked right after its p-th shared event; thread B then validates vb to
+    completion; A resumes.  Returns (outcome_a, outcome_b, tree public snapshot changed?)"""
+    from vf.common import verdict, jcopy, snapshot
+
+    MON.shared.clear()
+    MON.keep.clear()
+    MON.label.clear()
+    MON.effective.clear()
+    el = share_tree(make())
+    s0 = snapshot(el)
+    parked = threading.Event()
+    resume = threading.Event()
+    out = {}
+
+    def gate(tname, idx):
+        if tname == "A" and idx == p and not parked.is_set():
+            parked.set()
+            resume.wait(20)
+
+    MON.events = {}
+    MON.gate = gate
+    MON.active = True
+
+    def run_a():
+        out["A"] = verdict(el, jcopy(va))
+        parked.set()
+
+    def run_b():
+        parked.wait(20)
+        out["B"] = verdict(el, jcopy(vb))
+        resume.set()
+
+    ta = threading.Thread(target=run_a, name="A")
+    tb = threading.Thread(target=run_b, name="B")
+    try:
+        ta.start()
+        tb.start()
+        ta.join(60)
+        tb.join(60)
+    finally:
+        resume.set()
+        MON.active = False
+        MON.gate = None
+        MON.events = None
+    return out.get("A"), out.get("B"), snapshot(el) != s0
+
+
+def harmful_schedule(make, values):
+    """search (solver-chosen preemption points x ordered pairs of values) for a schedule whose outcome
+    differs from the solo runs; returns a description or None"""
+    from vf.common import verdict, jcopy, result_eq
+
+    install_monitor()
+    # which attribute names are written effectively at all?
+    written = set()
+    solo = []
+    for v in values:
+        o, ev, eff = record(make, v, "S")
+        solo.append(o)
+        for e in eff:
+            written.add(e[2] if e[0] == "setattr" else "<contents>")
+    if not written:
+        return None
+    install_read_hooks(written)
+    logs = []
+    for v in values:
+        o, ev, eff = record(make, v, "S")
+        logs.append(ev)
+    tried = 0
+    for ia, va in enumerate(values):
+        for ib, vb in enumerate(values):
+            for p in preemption_points(logs[ia], logs[ib]):
+                tried += 1
+                oa, ob, changed = forced_run(make, va, vb, p)
+                for name, got, want in (("A", oa, solo[ia]), ("B", ob, solo[ib])):
+                    if got is None or got[0] != want[0] or (want[0] and not result_eq(got[1], want[1])):
+                        return "thread %s (value %r) under schedule [A(%r) parked after its shared event #%d, B(%r) runs to completion, A resumes]: verdict/result %r differs from its solo run %r" % (
+                            name, va if name == "A" else vb, va, p, vb, got and got[0], want[0])
+                if changed:
+                    return "element tree (public state) changed under schedule [A(%r) parked after event #%d, B(%r)]" % (va, p, vb)
+    harmful_schedule.tried = tried
+    return None
+
+
+# ------------------------------------------------------------------ threads, free running (sanity layer)
 def threads_equal_sequential(make, v1, v2, rounds=200):
     """run the two calls on real threads (barrier start, many rounds) and compare with the solo runs + tree snapshot"""
     from vf.common import verdict, result_eq, snapshot, jcopy
@@ -302,13 +516,26 @@ def _child(m):
     return C
 
 
+PROBES = {
+    "class_required": '[{"a": m, "c": 1}, {"a": m - 1, "c": 1}, {"a": m}, {"a": m, "c": 1, "b": "x"}, {}]',
+    "element_required": '[{"a": m, "b": 1}, {"a": m - 1, "b": 1}, {"b": 1}, {"a": m, "b": 1, "c9": "x"}, {"a": m, "b": 1, "z": m + 1}]',
+    "parsed_typed": '[{"a": m, "a b": 1, "b": 0}, {"a": m - 1, "a b": 1}, {"a b": "x"}, {"a": m, "a b": 1}]',
+    "nested_classes": '[{"a": {"x": m}}, {"a": {"x": m - 1}}, {"a": {}}, {"b": [1, "x"]}]',
+    "tuple_items": '[[1, m, True], [1, m - 1], [1, m, True, True], ["x"], [1, m, 5]]',
+    "array_of_objects": '[[{"a": m}], [{"a": m + 1}], [], [{}]]',
+    "composition": '[{"a": m}, {"a": m - 1}, 3, m, m + 1, "s"]',
+    "inherited": '[{"a": m, "b": 1}, {"a": m - 1, "b": 1}, {"a": m}, {"a": m, "b": 1, "c": "x"}]',
+    "format_enum": '["x", m, [m], "y", {"a": "s"}, {"a": 1}]',
+}
+
+
 def harnesses(ctx) -> List[H]:
     hs: List[H] = []
     for name, (hargs, make, vt, pre) in TEMPLATES.items():
         body = f"""
 def make():
     return {make}
-return no_interference(make, v)
+return no_interference(make, v, {PROBES[name]})
 """
         hs.append(mk(f"c14_noninterference_{name}", f"{hargs}, v: {vt}", pre, body, timeout=200, group="step1",
                      tier="quick" if name in ("class_required", "element_required", "parsed_typed", "tuple_items", "composition", "inherited") else "thorough",
@@ -350,12 +577,14 @@ def thread_demo():
 
 
 def _demo_required_shared_write():
-    from vf.common import Element, Property, Integer
+    """the repaired defect: the call appended to the list object shared by all threads (and by subclasses)"""
+    from vf.common import Element, Property, Integer, accepts
 
-    def make():
-        return Element(properties={"a": Property(Integer(), required=True)}, required=["b"])
-
-    return not no_interference(make, {"a": 1, "b": 2})
+    el = Element(properties={"a": Property(Integer(), required=True)}, required=["b"])
+    shared = el.required
+    before = list(shared)
+    accepts(el, {"a": 1, "b": 2})
+    return list(shared) != before
 
 
 DEMOS = {"C14-required-shared-write": _demo_required_shared_write}
